@@ -147,6 +147,24 @@ theorem C18_orient_ccw (l : List (Pt K)) :
   · have h0 : 0 ≤ signedArea2 l := not_lt.mp hneg
     exact ⟨h0, (abs_of_nonneg h0).symm⟩
 
+/-- Scaling with both factors of the same sign (in particular both negative: a rotation by 180° combined with
+    a stretch) keeps a counter-clockwise polygon counter-clockwise, so storing its image needs no reversal; with
+    factors of opposite sign the image is clockwise and `orientCCW` reverses it. -/
+theorem C18_scale_orientation (fx fy ox oy : K) (l : List (Pt K)) (hl : 0 < signedArea2 l) :
+    (0 < fx * fy → orientCCW (l.map (Affine.apply ⟨fx, 0, 0, fy, ox - fx * ox, oy - fy * oy⟩))
+        = l.map (Affine.apply ⟨fx, 0, 0, fy, ox - fx * ox, oy - fy * oy⟩)) ∧
+    (fx * fy < 0 → orientCCW (l.map (Affine.apply ⟨fx, 0, 0, fy, ox - fx * ox, oy - fy * oy⟩))
+        = (l.map (Affine.apply ⟨fx, 0, 0, fy, ox - fx * ox, oy - fy * oy⟩)).reverse) := by
+  constructor
+  · intro h
+    unfold orientCCW
+    rw [C18_scale_area, if_neg]
+    exact not_lt.mpr (le_of_lt (mul_pos h hl))
+  · intro h
+    unfold orientCCW
+    rw [C18_scale_area, if_pos]
+    exact mul_neg_of_neg_of_pos h hl
+
 omit [Field K] [IsStrictOrderedRing K] in
 private theorem closeCurve_cons (p : Pt K) (rest : List (Pt K)) :
     closeCurve (p :: rest)
